@@ -99,6 +99,11 @@ template <typename G> void consume_normal(G &gen, const int *style, size_t limit
         } catch (const vs::TestError &e) { o.threw = true; o.code = e.code; }
         (void)with_arg;
     }
+    if (o.ended && !o.threw) {      // the end is final: asking a finished generator again must not announce a value
+        if (!gen.done()) dsim::fail("C13.end", "end of sequence was indicated but done() is false");
+        bool again; if constexpr (G::arg_is_void) again = gen.next(); else again = gen.next(argc);
+        if (again) dsim::fail("C13.extra_value", "next() on a finished generator announces another value");
+    }
 }
 // ---- consumer coroutine: styles 0 co_await next(), 1 co_await gen(), 2 co_await gen().has_value()
 template <typename G> cocls::async<void> consume_coro(G &gen, const int *style, size_t limit, Observed &o) {
@@ -124,6 +129,10 @@ template <typename G> cocls::async<void> consume_coro(G &gen, const int *style, 
                 o.vals.push_back(f.value()); break; }
             }
         } catch (const vs::TestError &e) { o.threw = true; o.code = e.code; }
+    }
+    if (o.ended && !o.threw) {      // the end is final (awaited form)
+        bool again; if constexpr (G::arg_is_void) again = co_await gen.next(); else again = co_await gen.next(argc);
+        if (again) dsim::fail("C13.extra_value", "co_await next() on a finished generator announces another value");
     }
 }
 
